@@ -121,5 +121,46 @@ pub fn run(ctx: &Ctx) -> Report {
     let n = sc.len();
     let st = scen_batch(ctx, sc, &[Policy::P0, Policy::P1], j);
     rep.part("link shapes alone, in pairs, as top-level source", st, serde_json::json!({"scenarios": n}));
+    // resolving a link may fail half-way (readlink / stat errors, a target that has just vanished): the run may
+    // fail, but it must not fall back to copying the link
+    {
+        let w = Worker::new(44, &ctx.pool.bins);
+        let sp = specs();
+        let mut jobs = vec![];
+        let mut errs = vec![];
+        let mut nsites = 0;
+        for d in drivers() {
+            let mut tree = base();
+            for i in [0usize, 1, 3, 8] {
+                tree.extend(sp[i].1.clone());
+            }
+            let s = Scenario::new(&format!("deref-faults-{}", d), tree, &["-r", "-L", "--driver", d, "-w", "2", "src", "dst"]);
+            let sa = std::sync::Arc::new(s.clone());
+            let basespec = RunSpec::base(Policy::P0);
+            let rec = match w.run(&s, &basespec) {
+                Ok(r) => r,
+                Err(e) => {
+                    errs.push(format!("recording run of {}: {}", s.name, e));
+                    continue;
+                }
+            };
+            let mut cnt: std::collections::BTreeMap<(usize, String), usize> = std::collections::BTreeMap::new();
+            for e in &rec.events {
+                let c = cnt.entry((e.th, e.name.clone())).or_insert(0);
+                *c += 1;
+                if matches!(e.name.as_str(), "readlink" | "readlinkat" | "statx" | "newfstatat" | "lstat" | "stat") && e.rel.as_deref().map(|r| r.starts_with("src") || r.starts_with("outside")).unwrap_or(false) {
+                    nsites += 1;
+                    for en in [libc::EIO, libc::ENAMETOOLONG, libc::ENOENT, libc::EACCES] {
+                        let mut spc = basespec.clone();
+                        spc.faults.push(crate::sup::Fault { call: e.name.clone(), thread: Some(rec.threads[e.th].clone()), nth: Some(*c), path_contains: None, action: crate::sup::Action::Errno(en) });
+                        jobs.push((sa.clone(), spc, 0usize));
+                    }
+                }
+            }
+        }
+        let st = crate::explore::explore(&ctx.pool, jobs, j);
+        rep.part("every readlink / stat of a source path failing (EIO, ENAMETOOLONG, ENOENT, EACCES)", st, serde_json::json!({"sites": nsites}));
+        rep.machinery_errors.extend(errs);
+    }
     rep
 }
